@@ -26,9 +26,12 @@ OBLIGATIONS = {
               'confirm': version.o7_4b_confirm, 'witness_ok': version.o7_4b_witness_ok},
     'O7.4c': {'engine': 'B', 'title': 'memtable output level never holds or passes an overlapping file', 'run': version.o7_4c_pick_level,
               'confirm': version.o7_4c_confirm, 'witness_ok': version.o7_4c_witness_ok},
+    'O1.4': {'engine': 'B', 'title': 'files consulted by a lookup: all containing level-0 files newest first, the unique candidate per deeper level', 'run': version.o1_4_overlapping_files,
+             'confirm': version.o1_4_confirm, 'witness_ok': version.o1_4_witness_ok},
 }
 
 PROPERTIES = {
     'C07': {'obligations': ['O7.1', 'O7.2', 'O7.3', 'O7.4a', 'O7.4b', 'O7.4c']},
+    'C01': {'obligations': ['O1.3', 'O1.4']},
     'C10': {'obligations': ['O7.1', 'O1.3', 'O10.3']},
 }
